@@ -490,7 +490,14 @@ func (b *Blockchain) EventFilter(
 
 // RevertHead reverts the head block
 func (b *Blockchain) RevertHead() error {
-	return b.stateBackend.RevertHead()
+	if err := b.stateBackend.RevertHead(); err != nil {
+		return err
+	}
+	// A revert can take the head back into an event-index window that was already persisted;
+	// the new fork persists that window again with different blooms. Cached copies of persisted
+	// windows would keep answering for the old fork (matching events of the new fork omitted).
+	b.cachedFilters.Reset()
+	return nil
 }
 
 func (b *Blockchain) GetReverseStateDiff() (core.StateDiff, error) {
